@@ -912,10 +912,9 @@ fn process_incoming_text_message<T: Read + Write>(
                                                 Some(("time_ms", what)) => {
                                                     let filtered_msg_index =
                                                         binary_search_by_time_us(
-                                                            1000u64
-                                                                * what
-                                                                    .parse::<u64>()
-                                                                    .unwrap_or_default(),
+                                                            what.parse::<u64>()
+                                                                .unwrap_or_default()
+                                                                .saturating_mul(1000u64),
                                                             fc,
                                                             stream,
                                                         );
